@@ -49,6 +49,7 @@ type Plan struct {
 	RevBig       int     `json:"rev_big,omitempty"`        // one reverse call whose argument, and therefore the client's response, has this many bytes
 	RevStream    int     `json:"rev_stream,omitempty"`     // the handler subscribes to a stream of this many elements served by the calling client
 	RevStreamPad int     `json:"rev_stream_pad,omitempty"` // padding of every (odd) element of that stream
+	TagFalse     bool    `json:"tag_false,omitempty"`      // call: through the client function tagged retry:"false" (an ordinary call)
 	RevSticky    int     `json:"rev_sticky,omitempty"`     // the handler subscribes to a client-served stream of this many elements whose producer ignores its context
 	Bare         bool    `json:"bare,omitempty"`           // subscribe through the method whose only result is the channel (no error result)
 	ChanCap      int     `json:"chan_cap,omitempty"`       // capacity of the channel the handler returns (at least Early)
@@ -688,7 +689,12 @@ func (w *World) CtxErrDuringStream(tok string) []string {
 
 // TokClient is the client-side proxy struct.
 type TokClient struct {
-	Call     func(ctx context.Context, tok string, plan Plan) (Result, error)
+	// RetryEarly: a retry-tagged function for the same remote method and with the same signature as Call, declared before
+	// it (what one field is tagged with must not rub off on another)
+	RetryEarly func(ctx context.Context, tok string, plan Plan) (Result, error) `retry:"true" rpc_method:"Tok.Call"`
+	Call       func(ctx context.Context, tok string, plan Plan) (Result, error)
+	// CallRF carries the retry tag with a value other than "true": an ordinary call
+	CallRF   func(ctx context.Context, tok string, plan Plan) (Result, error) `retry:"false" rpc_method:"Tok.Call"`
 	Notify   func(ctx context.Context, tok string, plan Plan) error           `notify:"true"`
 	Retry    func(ctx context.Context, tok string, plan Plan) (Result, error) `retry:"true" rpc_method:"Tok.Call"`
 	Sub      func(ctx context.Context, tok string, plan Plan) (<-chan Item, error)
